@@ -29,8 +29,9 @@ namespace OP2Utility
 		auto paletteFullLength = palette;
 		paletteFullLength.resize(ImageHeader::CalcMaxIndexedPaletteSize(imageHeader.bitCount), DiscreteColor::Black);
 
-		WriteHeaders(writer, imageHeader.bitCount, imageHeader.width, imageHeader.height, palette);
-		writer.Write(palette);
+		// Note: The written image header declares a full length palette (used color map entries of 0)
+		WriteHeaders(writer, imageHeader.bitCount, imageHeader.width, imageHeader.height, paletteFullLength);
+		writer.Write(paletteFullLength);
 
 		WritePixels(writer, pixels, imageHeader.width, imageHeader.height, imageHeader.bitCount);
 	}
